@@ -36,6 +36,13 @@ Theorem C07_pub_export_parse : forall t, wf_tkey t -> all_private t ->
 Proof. exact pub_export_parse. Qed.
 Print Assumptions C07_pub_export_parse.
 
+(* fuel = number of octets + 1 (what the driver passes) always suffices: OutOfFuel is excluded, not hidden *)
+Theorem C07_pub_export_parse_fuel : forall t, wf_tkey t -> all_private t ->
+  exists bs, export (pubkey_of t) = Some bs /\
+    parse_packets (S (length bs)) bs = Some (map view (export_pkts (pubkey_of t))).
+Proof. exact pub_export_parse_fuel. Qed.
+Print Assumptions C07_pub_export_parse_fuel.
+
 (* every packet of it is a public-key (6), public-subkey (14), user-id (13), user-attribute (17) or signature (2) packet *)
 Theorem C07_pub_export_tags : forall t, wf_tkey t -> all_private t ->
   Forall (fun p => In (fst p) [6; 14; 13; 17; 2]) (map view (export_pkts (pubkey_of t))).
